@@ -17,17 +17,18 @@ import (
 // same state (the prefix is replayed on a fresh ledger).
 
 type FaultIn struct {
-	Prop   string           `json:"prop,omitempty"`
-	Strict bool             `json:"strict"`
-	Prefix []Op             `json:"prefix"`
-	Op     Op               `json:"op"`
-	Faults []memstore.Fault `json:"faults"`
+	Prop   string `json:"prop,omitempty"`
+	Strict bool   `json:"strict"`
+	Prefix []Op   `json:"prefix"`
+	Op     Op     `json:"op"`
+	// Plans: each one is a set of one-shot faults armed together for one run of Op
+	Plans [][]memstore.Fault `json:"plans"`
 }
 
 type FaultRun struct {
-	Fault memstore.Fault `json:"fault"`
-	Fired bool           `json:"fired"`
-	Out   OpOut          `json:"out"`
+	Plan  []memstore.Fault `json:"plan"`
+	Fired bool             `json:"fired"`
+	Out   OpOut            `json:"out"`
 }
 
 type FaultOut struct {
@@ -45,40 +46,57 @@ func replayPrefix(strict bool, prefix []Op) (*Env, []OpOut) {
 	return e, outs
 }
 
-func runWithFault(in FaultIn, f memstore.Fault) FaultRun {
+func runWithFault(in FaultIn, plan []memstore.Fault) FaultRun {
 	e, _ := replayPrefix(in.Strict, in.Prefix)
 	ctx, cancel := context.WithCancel(BaseCtx())
 	defer cancel()
 	e.B.SetCancel(cancel)
-	e.B.InjectFault(f)
+	e.B.InjectFaults(plan)
 	out := e.Run(ctx, in.Op)
 	fired := e.B.FaultFired()
 	e.B.ClearFault()
-	return FaultRun{Fault: f, Fired: fired, Out: out}
+	return FaultRun{Plan: plan, Fired: fired, Out: out}
 }
 
 func RunFaults(in FaultIn) FaultOut {
 	e, pouts := replayPrefix(in.Strict, in.Prefix)
 	out := FaultOut{Prefix: pouts, Base: e.Run(BaseCtx(), in.Op)}
-	for _, f := range in.Faults {
-		out.Runs = append(out.Runs, runWithFault(in, f))
+	for _, plan := range in.Plans {
+		out.Runs = append(out.Runs, runWithFault(in, plan))
 	}
 	return out
 }
 
-func allFaults(nCalls int) []memstore.Fault {
-	fs := make([]memstore.Fault, 0, 3*(nCalls+1)+1)
+// allPlans: every single fault (each call position 1…N+1 × each kind), the
+// failing COMMIT, a deadlock at k followed by a failing COMMIT of the retried
+// attempt, and pairs (deadlock at k1 in the first attempt, then a second fault —
+// deadlock / error / idempotency-key conflict — at k2 in a later attempt).
+func allPlans(c *gen.Ctx, nCalls int) [][]memstore.Fault {
+	kinds := []string{memstore.FaultError, memstore.FaultDeadlock, memstore.FaultCancel, memstore.FaultIKConflict}
+	ps := make([][]memstore.Fault, 0)
 	for k := 1; k <= nCalls+1; k++ {
-		for _, kind := range []string{memstore.FaultError, memstore.FaultDeadlock, memstore.FaultCancel} {
-			fs = append(fs, memstore.Fault{At: k, Kind: kind})
+		for _, kind := range kinds {
+			ps = append(ps, []memstore.Fault{{At: k, Kind: kind}})
 		}
 	}
-	fs = append(fs, memstore.Fault{Kind: memstore.FaultCommit})
-	// a deadlock at call k, then a failing COMMIT of the retried attempt
+	ps = append(ps, []memstore.Fault{{Kind: memstore.FaultCommit}})
 	for k := 1; k <= nCalls; k++ {
-		fs = append(fs, memstore.Fault{At: k, Kind: memstore.FaultDeadlock, AndCommit: true})
+		ps = append(ps, []memstore.Fault{{At: k, Kind: memstore.FaultDeadlock, AndCommit: true}})
 	}
-	return fs
+	second := []string{memstore.FaultDeadlock, memstore.FaultError, memstore.FaultIKConflict, memstore.FaultDeadlock}
+	for k1 := 2; k1 < nCalls; k1++ {
+		for j := 0; j < 3; j++ {
+			// the retried attempt starts two calls after the failing one (Rollback, BeginTX)
+			k2 := k1 + 2 + c.R.Intn(nCalls+1)
+			plan := []memstore.Fault{{At: k1, Kind: memstore.FaultDeadlock}, {At: k2, Kind: second[c.R.Intn(len(second))]}}
+			if c.R.Intn(4) == 0 {
+				k3 := k2 + 2 + c.R.Intn(nCalls+1)
+				plan = append(plan, memstore.Fault{At: k3, Kind: second[c.R.Intn(len(second))]})
+			}
+			ps = append(ps, plan)
+		}
+	}
+	return ps
 }
 
 // genOpOfKind draws ops until one of the wanted kind comes out.
@@ -134,9 +152,18 @@ func init() {
 			dry := (i/len(WriteKinds))%2 == 1
 			// prefer an op that succeeds on this state (up to 6 draws), keep the last draw otherwise
 			var op Op
-			for try := 0; try < 6; try++ {
+			tries := 6
+			if (i/(2*len(WriteKinds)))%3 == 2 {
+				tries = 1 // every third round: keep whatever the first draw does (naturally failing ops under faults)
+			}
+			for try := 0; try < tries; try++ {
 				op = genOpOfKind(c, g, n, kind)
 				op.Dry = dry
+				if tries == 1 && (kind == KCreateP || kind == KCreateS) && len(g.refs) > 0 {
+					// a create that reuses a reference: its own failure must survive the retry path
+					op.Ref = g.refs[c.R.Intn(len(g.refs))]
+					op.IK = ""
+				}
 				probe, _ := replayPrefix(in.Strict, in.Prefix)
 				o := probe.Run(BaseCtx(), op)
 				if o.Resp.Err == "" && o.Resp.Panic == "" && !o.Resp.Hit {
@@ -146,7 +173,7 @@ func init() {
 			in.Op = op
 			probe, _ := replayPrefix(in.Strict, in.Prefix)
 			base := probe.Run(BaseCtx(), op)
-			in.Faults = allFaults(len(base.Trace))
+			in.Plans = allPlans(c, len(base.Trace))
 			if err := c.Emit("ctrlfault", in, RunFaults(in)); err != nil {
 				return err
 			}
